@@ -1,7 +1,7 @@
 (* C02 — nothing escapes datagram_received; what is not a well-formed SSDP message is dropped silently. *)
 From Coq Require Import List Bool NArith ZArith Lia.
 From AUC Require Import Prelude.PyStr Prelude.PyDict Prelude.Utf8 C16.Model C16.Spec C03.Model C03.Inv
-  C01.Model C01.Spec C01.Roundtrip C02.Model C02.Run Gen.Ssdp Gen.SsdpRecv.
+  C01.Model C01.Spec C01.Roundtrip C02.Model C02.Run C02.Inert Gen.Ssdp Gen.SsdpRecv.
 Import ListNotations.
 Local Open Scope N_scope.
 
@@ -82,6 +82,29 @@ Section Recv.
     induction l as [|x r IH]; cbn; [reflexivity|]. destruct (KS x x); [exact IH | congruence].
   Qed.
 
+  (* clause 3 on the model: a message the tracker specification calls neither a sighting nor a byebye is inert *)
+  Theorem listener_inert s t :
+    c_listener_inert url_of s (dkeys (devices t))
+      (obs_of (fst (do_step url_of ipver dev t s)) (snd (do_step url_of ipver dev t s))) = true.
+  Proof.
+    unfold c_listener_inert, listener_op, do_step, datagram_received.
+    destruct (is_valid_packet (s_data s)); [|reflexivity]. cbn [negb].
+    destruct (decode url_of (s_data s) (s_local s) (s_addr s) (s_remote s) (s_now s)) as [[rl h]|e] eqn:E; [|reflexivity].
+    pose proof (decode_inv url_of _ _ _ _ _ _ _ E) as Hi.
+    destruct (s_ep s); try reflexivity.
+    - destruct (neither (Adv (b_as_lower str_eqb lower h))) eqn:En; [|reflexivity].
+      unfold neither in En. apply andb_true_iff in En as [En Hb]. apply andb_true_iff in En as [Hd Hs].
+      rewrite (adv_inert ipver t h Hi Hd).
+      + cbn [fst snd obs_of note_effect quiet ob_callbacks ob_devs e_callbacks]. now rewrite perm_eqb_refl_str.
+      + unfold items_of. destruct (sighting _); [discriminate | reflexivity].
+      + unfold items_of. destruct (byebye_of _); [discriminate | reflexivity].
+    - destruct (neither (Srch (b_as_lower str_eqb lower h))) eqn:En; [|reflexivity].
+      unfold neither in En. apply andb_true_iff in En as [En Hb]. apply andb_true_iff in En as [Hd Hs].
+      rewrite (srch_inert ipver t h Hi Hd).
+      + cbn [fst snd obs_of note_effect quiet ob_callbacks ob_devs e_callbacks]. now rewrite perm_eqb_refl_str.
+      + unfold items_of. destruct (sighting _); [discriminate | reflexivity].
+  Qed.
+
   Theorem clauses_hold steps : forall t n,
     clauses_from url_of n (dkeys (devices t)) steps (run_from url_of ipver dev t steps) = [].
   Proof.
@@ -92,9 +115,11 @@ Section Recv.
     - destruct (do_step url_of ipver dev t s) as [t' o] eqn:E. cbn [clauses_from].
       unfold c_dropped_silent. rewrite W.
       assert (G : c_never_raises (obs_of t' o) = true) by (destruct o; cbn in *; auto; contradiction).
-      rewrite G. cbn [app]. replace (ob_devs (obs_of t' o)) with (dkeys (devices t')) by (destruct o; reflexivity).
+      rewrite G. pose proof (listener_inert s t) as LI. rewrite E in LI. cbn [fst snd] in LI. rewrite LI. cbn [app].
+      replace (ob_devs (obs_of t' o)) with (dkeys (devices t')) by (destruct o; reflexivity).
       apply IH.
-    - rewrite (ill_formed_dropped s t W). cbn [clauses_from]. unfold c_dropped_silent. rewrite W.
+    - pose proof (listener_inert s t) as LI. rewrite (ill_formed_dropped s t W) in LI |- *. cbn [fst snd] in LI.
+      cbn [clauses_from]. rewrite LI. unfold c_dropped_silent. rewrite W.
       cbn [obs_of c_never_raises ob_raised ob_callbacks ob_sent ob_scheduled ob_devs].
       rewrite perm_eqb_refl_str. cbn [N.eqb andb app]. apply IH.
   Qed.
